@@ -227,6 +227,16 @@ func (s sliceErr) Unwrap() error {
 	return nil
 }
 
+// detailErr is a value-type error whose interface field can hold something that does not support ==
+// (a slice): comparing two of them with == compiles and panics at run time.
+type detailErr struct {
+	Details interface{}
+	Inner   error
+}
+
+func (d detailErr) Error() string { return "detail" }
+func (d detailErr) Unwrap() error { return d.Inner }
+
 func hostileErrors() map[string]error {
 	base := errors.New("base")
 	out := map[string]error{
@@ -254,6 +264,9 @@ func hostileErrors() map[string]error {
 		"crlf-msg":         errors.New("a\r\ngrpc-status: 0\r\n\r\n"),
 		"binary-msg":       errors.New(string([]byte{0, 1, 2, 0xff, 0xfe, '"', '\\'})),
 	}
+	out["value-with-slice-in-interface-field-x2"] = detailErr{Details: []string{"a"}, Inner: detailErr{Details: []string{"a"}, Inner: base}}
+	out["value-with-map-in-interface-field-x3"] = detailErr{Details: map[string]int{"a": 1}, Inner: detailErr{Details: map[string]int{"a": 1}, Inner: detailErr{Details: map[string]int{"a": 1}}}}
+	out["value-with-func-in-interface-field-coded"] = detailErr{Details: func() {}, Inner: detailErr{Details: func() {}, Inner: drpcerr.WithCode(base, 4)}}
 	// cycles of length 1..3
 	c1 := &wrapU{msg: "c1"}
 	c1.in = c1
@@ -872,6 +885,30 @@ func liveDirected(a *acc) {
 		{"three metadata packets for one stream", [][]byte{append(append(append(fr(1, 1, drpcwire.KindInvokeMetadata, false, md("a", "1")), fr(1, 2, drpcwire.KindInvokeMetadata, false, md("b", "2"))...), fr(1, 3, drpcwire.KindInvokeMetadata, false, md())...), call(1, 4)...)}, 1},
 		{"empty metadata twice then metadata-only stream then a call", [][]byte{fr(1, 1, drpcwire.KindInvokeMetadata, false, nil), fr(1, 2, drpcwire.KindInvokeMetadata, false, nil), append(fr(2, 1, drpcwire.KindInvokeMetadata, false, md("z", "")), call(2, 2)...)}, 2},
 	}
+	// rpc names a peer can put into an invoke packet, on a server that keeps per-rpc statistics
+	for _, name := range []string{"", "/", "x", "//", "\x00", strings.Repeat("n", 70000), "/svc/Method"} {
+		a.n++
+		h := rig.HandlerFunc(func(stream drpc.Stream, rpc string) error { return nil })
+		rg := rig.New(rig.Config{Net: simnet.Opts{Cap: -1}, CollectStats: true, NoConn: true}, h)
+		raw := rg.Pair.A
+		rig.Go("drain", func() (interface{}, error) {
+			buf := make([]byte, 4096)
+			for {
+				if _, err := raw.Read(buf); err != nil {
+					return nil, nil
+				}
+			}
+		})
+		var b []byte
+		for sid := uint64(1); sid <= 2; sid++ {
+			b = append(b, fr(sid, 1, drpcwire.KindInvoke, false, []byte(name))...)
+			b = append(b, fr(sid, 2, drpcwire.KindCloseSend, false, nil)...)
+		}
+		os.WriteFile(lastInputFile, []byte(fmt.Sprintf("server-stats rpc-name %q\n", clipName(name))), 0o644)
+		raw.Write(b)
+		census.Quiesce(rig.Watchdog)
+		rg.Teardown()
+	}
 	for _, soft := range []bool{false, true} {
 		for _, ss := range sessions {
 			a.n++
@@ -916,6 +953,13 @@ func liveDirected(a *acc) {
 		}
 	}
 	a.sample = map[string]interface{}{"batch": a.id, "sessions": len(sessions)}
+}
+
+func clipName(s string) string {
+	if len(s) > 40 {
+		return s[:40] + "..."
+	}
+	return s
 }
 
 func liveCase(a *acc, role string, seed uint64) {
